@@ -165,8 +165,10 @@ Proof. exact F1_refuted. Qed.
 Print Assumptions C20_F1_refuted.
 
 Theorem C20_F1_rows_all_disagree :
-  forall r, In r known_F1 ->
-    In r (all_rows pinned_schema_tbl pinned_loader_tbl) /\ row_agrees pinned_schema_tbl pinned_loader_tbl r = false.
+  (forall r, In r (known_F1a ++ known_F1b) ->
+     In r (all_rows pinned_schema_tbl pinned_loader_tbl) /\ row_agrees pinned_schema_tbl pinned_loader_tbl r = false) /\
+  (forall r, In r known_F1c ->
+     In r (all_rows pinned_c_schema_tbl pinned_c_loader_tbl) /\ row_agrees pinned_c_schema_tbl pinned_c_loader_tbl r = false).
 Proof. exact F1_rows_all_disagree. Qed.
 Print Assumptions C20_F1_rows_all_disagree.
 
